@@ -58,10 +58,10 @@ def evo_event(args):
         b = bytes(dyn.conc_bp(schema, C, "NewT", val))
         ev["b"] = list(b)
         old = C[oty]().parse(b)
-        ev["obs_old"] = dyn.obs_bp(schema, old, oty)
+        ev["obs_old"] = dyn.obs_decoded(schema, old, oty)
         b_old = bytes(old)
         ev["b_old"] = list(b_old)
-        ev["obs_new"] = dyn.obs_bp(schema, C["NewT"]().parse(b_old), "NewT")
+        ev["obs_new"] = dyn.obs_decoded(schema, C["NewT"]().parse(b_old), "NewT")
         m = R["NewT"]()
         m.ParseFromString(b_old)
         ev["obs_ref"] = dyn.obs_ref(schema, m, "NewT")
